@@ -865,6 +865,10 @@ SETCONST_KNOWN = {
     'bvh_aabb': (('body_ipos_iquat',), 'setconst-bvh-stale-after-ipos-edit',
                  'Body BVH boxes are expressed in the inertial frame; with the stale boxes the midphase drops contacts '
                  '(observed: 3 contacts -> 0 after moving ipos by 3 m).'),
+    # same root cause: the rebuilt BVH of the recompiled model may also have a different tree layout
+    'bvh_nodeid': (('body_ipos_iquat',), 'setconst-bvh-stale-after-ipos-edit', 'Same stale BVH (tree layout).'),
+    'bvh_child': (('body_ipos_iquat',), 'setconst-bvh-stale-after-ipos-edit', 'Same stale BVH (tree layout).'),
+    'bvh_depth': (('body_ipos_iquat',), 'setconst-bvh-stale-after-ipos-edit', 'Same stale BVH (tree layout).'),
     'tendon_lengthspring': (('qpos0', 'qpos_spring', 'body_pos_quat'), 'setconst-tendon-lengthspring-stale',
                             'Tendons with automatic springlength (-1) are resolved once at compile time; the "auto" '
                             'information is lost, so setSpring() never recomputes them.'),
@@ -976,12 +980,15 @@ def asan_probe(ck):
                          timeout=float(os.environ.get('VERIF_ASAN_PROBE_S', '900')), cwd=VERIF)
     except subprocess.TimeoutExpired:
       ck.label('asan-probe:%s:inconclusive(timeout)' % which)
+      ck.extra.setdefault('asan_probe', {})[which] = 'inconclusive(timeout)'
       continue
     out = p.stdout + p.stderr
     if 'PROBE-CLEAN' in p.stdout and p.returncode == 0:
       ck.label('asan-probe:%s:clean' % which)
+      ck.extra.setdefault('asan_probe', {})[which] = 'clean'
     elif 'AddressSanitizer' in out and pat in out:
       ck.label('asan-probe:%s:known-finding' % which)
+      ck.extra.setdefault('asan_probe', {})[which] = 'known-finding reproduced'
       first = [l for l in out.split('\n') if 'ERROR: AddressSanitizer' in l][:1]
       ck.violation('%s (%s)' % (what, first[0].strip() if first else 'ASan report'), dict(check='asan-probe', which=which,
                    report=out[-3000:]), bucket='asan-' + which, fingerprint=fp)
@@ -990,6 +997,7 @@ def asan_probe(ck):
                    dict(check='asan-probe', which=which, report=out[-3000:]), bucket='asan-other-' + which)
     else:
       ck.label('asan-probe:%s:inconclusive(rc=%d)' % (which, p.returncode))
+      ck.extra.setdefault('asan_probe', {})[which] = 'inconclusive(rc=%d)' % p.returncode
       ck.extra['asan_probe_' + which] = out[-600:]
 
 
